@@ -1,17 +1,58 @@
 ---- MODULE Types ----
 (***************************************************************************)
-(* Abstract item kinds and the component-model subtype / merge relations  *)
-(* as far as the composition graph needs them.                            *)
+(* Abstract item kinds and the component-model subtype / merge relations.  *)
 (*                                                                         *)
-(* A kind is one of                                                        *)
-(*   [c |-> "func", sig |-> s]      function type; subtyping is equality   *)
+(* Kinds used by the composition-graph libraries:                          *)
+(*   [c |-> "func", sig |-> s]      function type named by its signature;  *)
+(*                                  subtyping is equality                  *)
 (*   [c |-> "inst", ex |-> f]       instance type, f : export name -> kind *)
 (*                                  (width and depth subtyping)            *)
 (*   [c |-> "type", id |-> t]       a defined (value) type; equality       *)
 (*   [c |-> "rtype", desc |-> d]    a type item (type export of an         *)
 (*                                  instance, type import); equality       *)
+(* Kinds of the type universe (C07, C09), with structure:                  *)
+(*   value types  [c |-> "prim", p], [c |-> "list" | "option", e],         *)
+(*                [c |-> "result", ok, err], [c |-> "tuple", es],          *)
+(*                [c |-> "record", fs], [c |-> "variant", cs],             *)
+(*                [c |-> "enum" | "flags", ns], [c |-> "none"] (absent)    *)
+(*   [c |-> "fn", ps |-> <<[n, v]..>>, r |-> v | none, async |-> BOOLEAN]  *)
+(*   [c |-> "comp", im |-> f, ex |-> f]   component type                   *)
+(*                                                                         *)
+(* The rules are those the property quotes: instances and components may   *)
+(* offer more exports, components may need fewer imports (contravariant),  *)
+(* functions, values and defined types must match structurally.            *)
 (***************************************************************************)
-EXTENDS Naturals, FiniteSets, TLC
+EXTENDS Integers, Sequences, FiniteSets, TLC
+
+RECURSIVE ValEq(_, _)
+\* structural equality of value types (field / case / parameter names and order matter)
+ValEq(a, b) ==
+  IF a.c # b.c THEN FALSE
+  ELSE CASE a.c = "none" -> TRUE
+         [] a.c = "prim" -> a.p = b.p
+         [] a.c \in {"list", "option"} -> ValEq(a.e, b.e)
+         [] a.c = "result" -> ValEq(a.ok, b.ok) /\ ValEq(a.err, b.err)
+         [] a.c = "tuple" -> Len(a.es) = Len(b.es) /\ \A i \in DOMAIN a.es : ValEq(a.es[i], b.es[i])
+         [] a.c = "record" -> Len(a.fs) = Len(b.fs)
+                               /\ \A i \in DOMAIN a.fs : a.fs[i].n = b.fs[i].n /\ ValEq(a.fs[i].v, b.fs[i].v)
+         [] a.c = "variant" -> Len(a.cs) = Len(b.cs)
+                                /\ \A i \in DOMAIN a.cs : a.cs[i].n = b.cs[i].n /\ ValEq(a.cs[i].v, b.cs[i].v)
+         [] a.c \in {"enum", "flags"} -> a.ns = b.ns
+         [] OTHER -> FALSE
+
+\* Core externs of module types: [x |-> "cfunc", sig], [x |-> "mem", init, max, shared, m64],
+\* [x |-> "table", elem, init, max], [x |-> "global", vt, mut]; max = -1 stands for "no maximum".
+\* Import matching of the core specification: the offered limits lie within the expected ones.
+LimitsMatch(ai, am, bi, bm) ==
+  /\ ai >= bi
+  /\ IF bm = -1 THEN TRUE ELSE am # -1 /\ am <= bm
+ExternSub(a, b) ==
+  IF a.x # b.x THEN FALSE
+  ELSE CASE a.x = "cfunc" -> a.sig = b.sig
+         [] a.x = "mem" -> a.shared = b.shared /\ a.m64 = b.m64 /\ LimitsMatch(a.init, a.max, b.init, b.max)
+         [] a.x = "table" -> a.elem = b.elem /\ LimitsMatch(a.init, a.max, b.init, b.max)
+         [] a.x = "global" -> a.vt = b.vt /\ a.mut = b.mut
+         [] OTHER -> FALSE
 
 RECURSIVE Sub(_, _)
 \* Sub(a, b): an item of kind a may be supplied where kind b is expected.
@@ -22,6 +63,17 @@ Sub(a, b) ==
          [] a.c = "rtype" -> a.desc = b.desc
          [] a.c = "inst" -> \A e \in DOMAIN b.ex :
                                e \in DOMAIN a.ex /\ Sub(a.ex[e], b.ex[e])
+         [] a.c = "fn" -> /\ a.async = b.async
+                          /\ Len(a.ps) = Len(b.ps)
+                          /\ \A i \in DOMAIN a.ps : a.ps[i].n = b.ps[i].n /\ ValEq(a.ps[i].v, b.ps[i].v)
+                          /\ ValEq(a.r, b.r)
+         [] a.c = "comp" -> \* every import a needs is provided to b's users too (contravariant) ...
+                            /\ \A k \in DOMAIN a.im : k \in DOMAIN b.im /\ Sub(b.im[k], a.im[k])
+                            \* ... and a offers at least b's exports
+                            /\ \A k \in DOMAIN b.ex : k \in DOMAIN a.ex /\ Sub(a.ex[k], b.ex[k])
+         [] a.c = "mod" -> \* core module types: imports contravariant, exports covariant, by import matching
+                           /\ \A k \in DOMAIN a.im : k \in DOMAIN b.im /\ ExternSub(b.im[k], a.im[k])
+                           /\ \A k \in DOMAIN b.ex : k \in DOMAIN a.ex /\ ExternSub(a.ex[k], b.ex[k])
          [] OTHER -> FALSE
 
 RECURSIVE Mergeable(_, _)
@@ -31,6 +83,7 @@ Mergeable(a, b) ==
   ELSE CASE a.c = "func" -> a.sig = b.sig
          [] a.c = "type" -> a.id = b.id
          [] a.c = "rtype" -> a.desc = b.desc
+         [] a.c = "fn" -> Sub(a, b)
          [] a.c = "inst" -> \A e \in DOMAIN a.ex \cap DOMAIN b.ex : Mergeable(a.ex[e], b.ex[e])
          [] OTHER -> FALSE
 
